@@ -3,9 +3,9 @@
 # evidence goes to evidence-thorough/ (the committed evidence/ stays what a fresh quick run writes)
 cd "$(dirname "$0")/.."
 B=${1:-240}; S=${2:-1}
-mkdir -p evidence-thorough
+OUT=${THOROUGH_OUT:-$(pwd)/evidence-thorough}; mkdir -p $OUT
 for c in $(python3 -c "import json;print(' '.join(c['property_id'] for c in json.load(open('MANIFEST.json'))['checks']))"); do
   b=$B; [ $c = C35 ] && b=$((B*3))
-  out=$(VERIF_EVIDENCE_DIR=$(pwd)/evidence-thorough ./vcheck $c --tier thorough --budget $b --seed $S 2>&1); rc=$?
+  out=$(VERIF_EVIDENCE_DIR=$OUT ./vcheck $c --tier thorough --budget $b --seed $S 2>&1); rc=$?
   echo "$c rc=$rc $(echo "$out" | grep "^$c thorough" | cut -c1-160) $(echo "$out" | grep "VIOLATION\|HARNESS-TROUBLE" | head -2 | tr '\n' ' ' | cut -c1-300)"
 done
